@@ -140,6 +140,30 @@ def run(ctx):
                 o["class"] = "onecpu:" + o["class"]
             ctx.info.append("%d runs in a process confined to one cpu (runtime.NumCPU() == 1)" % len(one))
             rows += one
+        # failed builds through the REAL tcp / udp / icmp fillers (MACs of 8 and 20 bytes, no MAC, short source MAC, IPv6
+        # destination) behind the real multi generator + sender: one error and no frame each, every other frame intact
+        ok, _ = ctx.harness_run("c07", ["-out", "buildfail.jsonl", "-buildfail", 400 if quick else 4000], timeout=600)
+        bf = ctx.read_jsonl(os.path.join(ctx.work, "buildfail.jsonl")) if ok else []
+        for o in bf:
+            ctx.count("buildfail", ("buildfail", o["kind"], o["workers"]), nontrivial=True,
+                      sample={"filler": o["kind"], "workers": o["workers"], "requests": o["n"], "unbuildable": o["unbuildable"],
+                              "errors": o["errors"], "frames": o["frames"]})
+            why = None
+            if o["stuck"]:
+                why = "the engine does not complete within 30 s"
+            elif o["bad"]:
+                why = o["bad"]
+            elif o["errors"] != o["unbuildable"]:
+                why = "%d requests cannot be built but %d errors are on the error stream (first: %s)" % (o["unbuildable"], o["errors"], o["first_errors"])
+            elif o["frames"] != o["n"] - o["unbuildable"]:
+                why = "%d frames written for %d buildable requests" % (o["frames"], o["n"] - o["unbuildable"])
+            if why:
+                why = "%d requests (one in seven unbuildable: destination MAC of 8 / 20 / 0 bytes, 5-byte source MAC, IPv6 destination) through the real %s filler, %d generator workers, real sender: %s" % (
+                    o["n"], o["kind"], o["workers"], why)
+                path = ctx.write_replay("buildfail-%s-%d" % (o["kind"], o["workers"]), {"property": "C07", "what": why, "input": {
+                    "harness": "c07 -buildfail %d" % o["n"], "filler": o["kind"], "workers": o["workers"]}, "observed": o})
+                ctx.findings.append({"key": "buildfail:" + o["kind"], "what": why, "replay": path})
+        ctx.info.append("%d runs of the real tcp/udp/icmp fillers with unbuildable requests behind the real generator workers and sender" % len(bf))
         for i, o in enumerate(rows):
             o["case"] = i
         if not quick:
